@@ -120,6 +120,10 @@ def subject_octets(sigtype, subject):
         if kind != 'none' and not (kind == 'doc' and len(subject[1]) == 0):
             raise WireError('standalone / timestamp signature covers no subject')
         return b''
+    if sigtype == T_CERT_REV and kind == 'key':
+        # RFC 4880 5.2.1: 0x30 revokes a user id certification or a direct-key signature (0x1F); in the latter case it is
+        # computed like the signature it revokes: over the key alone
+        return subject[1].hash_material()
     if sigtype in T_CERTS or sigtype in (T_CERT_REV, T_ATTEST):
         if kind != 'cert':
             raise WireError('certification needs key + user id/attribute')
